@@ -528,11 +528,23 @@ def _lit_match_chain(e):
             return x
         return {'k': 'Block', 'stmts': list(lets), 'expr': x, 'sp': x.get('sp'), 'ty': x.get('ty')}
 
+    root = peel(scr)
+    while root.get('k') == 'Field':
+        root = peel(root['ch'][0])
+    stable = root.get('local') not in _assigned_locals({'k': 'Tup', 'ch': [x for a in arms for x in
+                                                                                        [a['body']] + ([a['guard']] if 'guard' in a else [])]})
+
     def build(i):
         a, kd = arms[i], kinds[i]
         last = i == len(arms) - 1
         lets = []
-        if kd == 'bind':
+        if kd == 'bind' and stable:
+            # the arm's name for the scrutinee is the scrutinee itself
+            a = dict(a)
+            a['body'] = _subst_local(a['body'], a['pat']['local'], scr, True)
+            if 'guard' in a:
+                a['guard'] = _subst_local(a['guard'], a['pat']['local'], scr, True)
+        elif kd == 'bind':
             lets = [{'k': 'Let', 'pat': a['pat'], 'init': scr, 'sp': a['pat'].get('sp')}]
         if kd == 'lit':
             lit = dict(a['pat']['e'])
@@ -596,17 +608,18 @@ def _assigned_locals(x):
     return out
 
 
-def _subst_local(x, lid, repl):
-    """x with every read of local `lid` replaced by `repl` (not descending into closures)"""
+def _subst_local(x, lid, repl, deep=False):
+    """x with every read of local `lid` replaced by `repl` (not descending into closures unless
+    `deep`)"""
     if isinstance(x, list):
-        return [_subst_local(y, lid, repl) for y in x]
+        return [_subst_local(y, lid, repl, deep) for y in x]
     if not isinstance(x, dict):
         return x
     if x.get('k') == 'Path' and x.get('res') == 'local' and x.get('local') == lid:
         return repl
-    if x.get('k') == 'Closure':
+    if x.get('k') == 'Closure' and not deep:
         return x
-    return {key: (_subst_local(v, lid, repl) if isinstance(v, (dict, list)) and key not in ('targs', 'adj', 'pat', 'params')
+    return {key: (_subst_local(v, lid, repl, deep) if isinstance(v, (dict, list)) and key not in ('targs', 'adj', 'pat', 'params')
                   else v) for key, v in x.items()}
 
 
